@@ -34,7 +34,7 @@ theorem nextchar_total (a : Ascii) (c : UInt8) (h : WF a) (hb : a.bpos < a.nc) :
     (((nextchar a c).2.1 = .ok ∧ (nextchar a c).1.bpos < (nextchar a c).1.nc ∧ pos (nextchar a c).1 = pos a + 1 ∧
         a.file[(pos a + 1).toNat]? = some (nextchar a c).2.2) ∨
      ((nextchar a c).2.1 = .eof ∧ (nextchar a c).2.2 = c ∧ pos a + 1 = a.file.size ∧ (nextchar a c).1.nc = 0 ∧
-        (nextchar a c).1.bpos = 0)) := nextchar_refines a c h hb
+        (nextchar a c).1.bpos = 0 ∧ pos (nextchar a c).1 = pos a + 1)) := nextchar_refines a c h hb
 
 /-- in particular `fault` is not an outcome of `nextchar` -/
 theorem nextchar_no_fault (a : Ascii) (c : UInt8) (h : WF a) (hb : a.bpos < a.nc) : (nextchar a c).2.1 ≠ .fault := by
